@@ -375,6 +375,7 @@ PROPS = {
                         "timing tolerances from DESIGN A.6; a doubled period at 100 ms lies on the tolerance boundary"],
         "runs": [
             {"name": "histories", "run": "TestHeartbeatHistories", "kind": "rapid", "checks": {Q: 48, T: 3008}, "shards": {Q: 6, T: 16}, "shrinktime": "30s"},
+            {"name": "histories-tz", "run": "TestHeartbeatHistories", "kind": "rapid", "checks": {Q: 16, T: 512}, "shards": {Q: 4, T: 16}, "shrinktime": "30s", "env": {"VERIF_TZ_OFFSET_MIN": {Q: 330, T: -210}}},
             {"name": "interleavings", "run": "TestHeartbeatInterleavings", "kind": "plain", "shards": {Q: 8, T: 16}},
             {"name": "hammer", "run": "TestHeartbeatHammer", "kind": "plain", "shards": {Q: 1, T: 4}, "env": {"VERIF_ROUNDS": {Q: 200, T: 500}}},
             {"name": "regressions", "run": "TestScheduleRegressions", "kind": "plain"},
